@@ -228,6 +228,8 @@ func (c lockerCfg) keyDesc() []string {
 			out[i] = fmt.Sprintf("int(%d)", intKey(s))
 		case "string":
 			out[i] = fmt.Sprintf("%q", strKey(s))
+		case "hit":
+			out[i] = fmt.Sprintf("hitKey{Hit()=%d}", s)
 		case "boundary":
 			out[i] = fmt.Sprintf("%T(%#v)", boundaryKey(s), boundaryKey(s))
 		case "samevalue":
@@ -269,6 +271,13 @@ func build(c lockerCfg) lockerAPI {
 		}
 		return &iAd{l, kv}
 	case "TKeyLocker", "TKeyLockerGrp":
+		if c.KeyTy == "hit" {
+			kv := make([]hitKey, len(c.Seeds))
+			for i, s := range c.Seeds {
+				kv[i] = hitKey{V: uint64(s)}
+			}
+			return &tAd[hitKey]{l: newT[hitKey](c, opt), kv: kv, reuse: c.Reuse, bufs: make([][]hitKey, 32)}
+		}
 		if c.KeyTy == "string" {
 			kv := make([]string, len(c.Seeds))
 			for i, s := range c.Seeds {
